@@ -1,5 +1,6 @@
 import Bardolph.Driver.TimePattern
 import Bardolph.Driver.Clock
+import Bardolph.Driver.StopProtocol
 /-! All driver handlers; `dispatch` routes one request line. -/
 namespace Bardolph.Driver
 
@@ -10,6 +11,9 @@ def dispatch (line : String) : String :=
     | some r => r
     | none =>
     match Clk.handle cmd args with
+    | some r => r
+    | none =>
+    match SP.handle cmd args with
     | some r => r
     | none => "bad-cmd"
   | [] => "bad-cmd"
